@@ -8,6 +8,7 @@ use crate::region::verif_region::*;
 use crate::mac::session::verif_session::*;
 
 /// re-export for front-end harnesses (module `session` is private to `mac`)
+pub(crate) fn sessions_equal_but_adr_cnt(a: &Session, b: &Session) -> bool { let mut x = a.clone(); x.adr_ack_cnt = b.adr_ack_cnt; session::verif_session::session_eq(&x, b) }
 pub(crate) fn any_joined_session() -> Session { session::verif_session::any_session() }
 pub(crate) fn any_mac(region: region::Configuration, state: State) -> Mac {
     let configuration = {
